@@ -136,6 +136,8 @@ def prepare():
             src = os.path.join(COQ, v)
             if not os.path.exists(vo) or os.path.getmtime(vo) < os.path.getmtime(src):
                 b.failed.append(v)
+        for m in re.finditer(r"\*\*\* \[[^\]]*?(theories/[^\s\]]+)\.vo\] Error", out):   # failed now, but a stale .vo newer than the (unchanged) source is still there
+            b.failed += [m.group(1) + ".v"] if m.group(1) + ".v" in vfiles and m.group(1) + ".v" not in b.failed else []
         # extraction + driver (needs only Model/*.vo)
         model_vo = [os.path.join(COQ, v + "o") for v in vfiles if v.startswith("theories/Model/") or v.startswith("theories/Base/")]
         need = not os.path.exists(DRIVER)
